@@ -158,11 +158,15 @@ pub fn generate(g: &mut Gen, thorough: bool) {
                 _ => {
                     if thorough && round % 10 == 0 {
                         20000
+                    } else if round % 2 == 0 {
+                        1500 // beyond any batch size an implementation is likely to pick (1024, 1000)
                     } else {
                         300
                     }
                 }
             };
+            // every pipeline once on a set beyond any likely internal batch size
+            let n = if def.contains('|') && round == 1 { 1500 } else { n };
             let set = if def.starts_with("deformation") {
                 deformation_set(g, n)
             } else if def.starts_with("deflection") {
